@@ -25,7 +25,13 @@ def nontrivial(pre, s):
 
 
 def sig_var(trace, step, clause):
+    import re
     a = trace["steps"][step - 1]["a"] if step else {"op": "init"}
+    post = trace["steps"][step - 1]["post"] if step else trace["init"]
+    if clause == "TextListsExactlyTheVariables" and post["reparsed"] and post["reparsed"][0]["name"] == "#unparsable" \
+            and re.search(r";\s*/\*[^*]*\*/\s*$", post["text"]):
+        # the serialisation ends '...; /*comment*/', which the block's own parser does not accept
+        return "C10|VarBlock|%s|unparsable:comment-after-last-semicolon" % clause
     return "C10|VarBlock|%s|%s" % (clause, a["op"])
 
 
